@@ -45,16 +45,10 @@ func encFilter(c *Case, f comet.Filter) {
 		op = 99
 	}
 	c.N(op)
-	if v, ok := comet.VerifToInt64(f.Value); ok {
-		c.N(1).I(v)
-	} else {
-		c.N(0)
-	}
-	if v, ok := comet.VerifToInt64(f.Value2); ok {
-		c.N(1).I(v)
-	} else {
-		c.N(0)
-	}
+	// the operands go out as typed values: the model, not the implementation, converts them to
+	// fixed point (a query-side conversion that disagrees with Add's is a C04 violation)
+	encValue(c, f.Value)
+	encValue(c, f.Value2)
 	c.Str(fmt.Sprintf("%v", f.Value))
 	switch vals := f.Value.(type) {
 	case []string:
@@ -157,7 +151,10 @@ func metaDoc(r *rand.Rand, allowBad bool) map[string]interface{} {
 		m["price"] = metaFloats[r.Intn(len(metaFloats))]
 	}
 	if allowBad && r.Intn(6) == 0 {
-		m["bad"] = []int{1}
+		// every kind of value the index does not support must be refused before anything is written,
+		// including the numeric types that sit next to the supported ones
+		bads := []interface{}{[]int{1}, int32(5), float32(1.5), nil, uint(3), struct{}{}, int8(1), uint64(7), []string{"a"}}
+		m["bad"] = bads[r.Intn(len(bads))]
 	}
 	return m
 }
